@@ -257,18 +257,15 @@ func (m *Msg) Pack(b []byte, compression bool, size int) (int, error) {
 		return 0, errTooManyAdditionals
 	}
 
+	// The section counts are the numbers of elements actually packed.
 	var h header
 	h.id, h.bits = m.Header.Pack()
-	h.questions = uint16(len(m.Questions))
-	h.answers = uint16(len(m.Answers))
-	h.authorities = uint16(len(m.Authorities))
-	h.additionals = uint16(len(m.Additionals))
 
 	if size > 0 && size < 512 {
 		size = 512
 	}
 
-	var msgHdr = m.Header
+	truncated := false
 	off := 12
 	if len(b) < off {
 		return 0, newSectionErr("header", ErrSmallBuffer)
@@ -289,44 +286,48 @@ func (m *Msg) Pack(b []byte, compression bool, size int) (int, error) {
 	}
 	for _, q := range m.Questions {
 		if size > 0 && off+q.Len() > size {
-			msgHdr.Truncated = true
+			truncated = true
 			continue
 		}
 		var err error
 		if off, err = q.pack(b, off, compressionMap); err != nil {
 			return off, newSectionErr("question", err)
 		}
+		h.questions++
 	}
 
 	for _, r := range m.Answers {
 		if size > 0 && off+r.packLen() > size {
-			msgHdr.Truncated = true
+			truncated = true
 			continue
 		}
 		var err error
 		if off, err = r.pack(b, off, compressionMap); err != nil {
 			return off, newSectionErr("answer", err)
 		}
+		h.answers++
 	}
 	for _, r := range m.Authorities {
 		if size > 0 && off+r.packLen() > size {
-			msgHdr.Truncated = true
+			truncated = true
 			continue
 		}
 		var err error
 		if off, err = r.pack(b, off, compressionMap); err != nil {
 			return off, newSectionErr("authority", err)
 		}
+		h.authorities++
 	}
 	for _, r := range m.Additionals {
 		if size > 0 && off+r.packLen() > size {
-			msgHdr.Truncated = true
+			truncated = true
 			continue
 		}
 		var err error
 		if off, err = r.pack(b, off, compressionMap); err != nil {
 			return off, newSectionErr("additional", err)
 		}
+		h.additionals++
 	}
 
 	if edns0Opt != nil {
@@ -335,8 +336,12 @@ func (m *Msg) Pack(b []byte, compression bool, size int) (int, error) {
 		if off, err = edns0Opt.pack(b, off, compressionMap); err != nil {
 			return off, newSectionErr("additional", err)
 		}
+		h.additionals++
 	}
 
+	if truncated {
+		h.bits |= headerBitTC
+	}
 	h.pack(b[:12])
 	return off, nil
 }
